@@ -164,6 +164,11 @@ def plan(ctx):
     return [[c] for c in catalogue(ctx.thorough)]
 
 
+def unit_cost(unit):
+    c = unit[0]
+    return len(c['W']) * 10 + (5 if c['params'].get('wei_freq') == 1 else 0) + c['params'].get('iters', 0)
+
+
 def sign_degrees(M):
     P = M > 0
     N = M < 0
